@@ -68,6 +68,8 @@ enum Decision {
     /// stream is reset before the trailers that carry grpc-status; for HTTP/1.1 the connection closes after the request
     /// was read (same as `ReadThenClose`: a 200 status line alone would be a legitimate acknowledgement there)
     ResetMidResponse,
+    /// gRPC: response headers, then silence (the stream hangs, the connection is fine)
+    StallAfterHeaders,
 }
 
 impl Decision {
@@ -81,6 +83,7 @@ impl Decision {
             Decision::ResetMidBody => "reset_mid_body",
             Decision::Stall => "stall_until_client_timeout",
             Decision::ResetMidResponse => "reset_mid_response",
+            Decision::StallAfterHeaders => "stall_after_response_headers",
         }
     }
     fn transport_level(&self) -> bool {
@@ -575,7 +578,21 @@ async fn grpc_stream(
             return;
         }
         Decision::Stall => {
+            // never answer - or answer with the response headers and then go quiet (no message, no trailers, no reset, the
+            // connection left open): the client's request timeout covers the whole exchange, trailers included. Only the
+            // stream hangs; the connection is as good as before and may be used again
+            let headers_first = col.sched.lock().choices.chance(1, 2);
+            if headers_first {
+                entry.decision = Decision::StallAfterHeaders;
+            }
             col.log.lock().unwrap().push(entry);
+            let _held = if headers_first {
+                *col.fired.lock().unwrap().entry("stall_after_response_headers").or_insert(0) += 1;
+                let response = http::Response::builder().status(200).header("content-type", "application/grpc").body(()).unwrap();
+                respond.send_response(response, false).ok()
+            } else {
+                None
+            };
             sim_sleep(3_600_000).await;
             return;
         }
